@@ -47,8 +47,8 @@ type Control struct {
 	Version       version.Version `required:"true"`
 	Architecture  dependency.Arch `required:"true"`
 	Maintainer    string
-	InstalledSize int             `control:"Installed-Size"`
-	MultiArch     string          `control:"Multi-Arch"`
+	InstalledSize int    `control:"Installed-Size"`
+	MultiArch     string `control:"Multi-Arch"`
 	Depends       dependency.Dependency
 	Recommends    dependency.Dependency
 	Suggests      dependency.Dependency
@@ -257,6 +257,19 @@ func loadDeb2Control(archive map[string]*ArEntry, deb *Deb) error {
 					return err
 				}
 				if path.Clean(member.Name) == "control" {
+					if member.Typeflag != tar.TypeReg && member.Typeflag != tar.TypeRegA {
+						/* a sparse entry, say, whose content the tar
+						 * reader makes up as it goes - 2^62 NUL bytes
+						 * from a header of 512 - or a link or directory */
+						closer.Close()
+						return fmt.Errorf("The 'control' entry of the control member is not a regular file")
+					}
+					for key := range member.PAXRecords {
+						if strings.HasPrefix(key, "GNU.sparse.") {
+							closer.Close()
+							return fmt.Errorf("The 'control' entry of the control member is a sparse file")
+						}
+					}
 					err1 := control.Unmarshal(&deb.Control, archive)
 					err2 := closer.Close()
 					if err1 != nil {
